@@ -94,5 +94,11 @@ Definition corr_validate_raw (c : limits * list raw_entry * Z) : bool :=
 From S2T Require Import C11.ModelSession.
 Fixpoint zs_eqb (x y : list Z) : bool :=
   match x, y with [] , [] => true | a :: r, b :: r' => (a =? b) && zs_eqb r r' | _, _ => false end.
+(* result codes: guard calls as bcode; is_odf_encrypted returning False / True = 10 / 11 *)
+Definition scode (r : sresult) : Z := match r with SGuard g => bcode g | SBool false => 10 | SBool true => 11 end.
 Definition corr_session (c : list call * list Z) : bool :=
-  let '(cs, want) := c in zs_eqb (map bcode (run_session cs)) want.
+  let '(cs, want) := c in zs_eqb (map scode (run_session cs)) want.
+
+(* the events of one is_odf_encrypted call *)
+Definition corr_odf_probe (c : limits * bool * zip_oracle * list event) : bool :=
+  let '(L, z, o, want) := c in evs_eqb (odf_probe_events L 0%N z o) want.
